@@ -31,7 +31,7 @@ ANCHORS = [
     "stereomolgraph.graphs.mg:MolGraph.from_atom_types_and_bond_order_matrix",
 ]
 REQUIRED_ANCHORS = ANCHORS
-REQUIRED = ["roundtrips", "single_atom", "connectivity_matrices", "contract_evaluations", "rigid_motions", "permutations", "threshold_pairs", "translation_magnitude:1e+06", "comment:fourcol", "comment:nonascii", "comment:none"]
+REQUIRED = ["roundtrips", "single_atom", "connectivity_matrices", "contract_evaluations", "rigid_motions", "permutations", "threshold_pairs", "translation_magnitude:1e+06", "comment:fourcol", "comment:nonascii", "comment:none", "large_geometries"]
 _contract = {"n": 0}
 
 
@@ -101,6 +101,11 @@ def _coords(rng, n, mag):
 
 def gen_cases(ctx):
     rng = ctx.rng
+    # geometries with thousands of atoms (N x N x 3 temporaries; chunked implementations have a last, partial chunk)
+    for k, nl in enumerate((2500, 3100) if ctx.tier == "quick" else (2500, 3100, 4100, 5000)):
+        gs = rng.randrange(1 << 30)
+        if k % ctx.nshards == ctx.shard:
+            yield {"kind": "conn", "n_large": nl, "shape": "chain", "gseed": gs}
     n = ctx.n(40000, 600000)
     kinds = list(COMMENTS)
     for i in range(n):
@@ -117,6 +122,10 @@ def gen_cases(ctx):
 
 
 def check_case(ctx, case):
+    if case["kind"] == "conn" and "n_large" in case:
+        r = random.Random(case["gseed"])
+        case = dict(case, elements=[r.choice([6, 6, 7, 14, 16, 15, 1]) for _ in range(case["n_large"])])
+        ctx.count("large_geometries")
     if case["kind"] == "xyz":
         return _xyz(ctx, case)
     return _conn(ctx, case)
@@ -194,6 +203,18 @@ def _expected(els, c, band):
     from stereomolgraph.periodic_table import COVALENT_RADII
 
     n = len(els)
+    if n > 400:  # large geometries: same definition, evaluated row by row with numpy
+        r = np.array([COVALENT_RADII[e] for e in els], dtype=float)
+        exp = np.zeros((n, n), dtype=int)
+        unsure = np.zeros((n, n), dtype=bool)
+        for i in range(n):
+            d = np.sqrt(((c - c[i]) ** 2).sum(axis=1))
+            cut = (r + r[i]) * 1.2
+            exp[i] = d < cut
+            unsure[i] = np.abs(d - cut) <= band * cut
+            exp[i, i] = 0
+            unsure[i, i] = False
+        return exp, unsure
     exp = np.zeros((n, n), dtype=int)
     unsure = np.zeros((n, n), dtype=bool)
     for i in range(n):
